@@ -72,7 +72,7 @@ claim("C02",
       "Oracle = SQLite's documented precedence table (the executable grammar here). translate_expr is external (uninterpreted result, "
       "Context state not modelled); sqlparser enums are mechanically generated skeletons; sqlparser's Display is trusted to print trees as written.")
 
-prop("C01", ["split_order", "take_range", "operator_tpl", "vec_utils", "group_take", "flatten_sort", "sort_take", "sort_infer"],
+prop("C01", ["split_order", "take_range", "operator_tpl", "vec_utils", "group_take", "flatten_sort", "sort_take", "sort_infer", "setop_pairs"],
      not_covered="anchor_split cid redirection, preprocess (distinct/union recognition), lowering, flattening, the other pluck call sites of translate_select_pipeline (select / sort / take / join): hash-map threaded folds over three "
                  "IRs; a violation there is invisible to these contracts")
 claim("C01",
@@ -193,7 +193,7 @@ def _c16_ids(name):
     return lab in ("IG1", "IG2", "IG3", "SK1") or lab.startswith("gen.") or lab.startswith("skip.") or lab.endswith("IdGenerator::gen.safety") or "skip" in lab
 
 
-prop("C16", ["toposort", "rq_tables", "ids_names", "lower_cols", "rq_shape"], select={"ids_names": _c16_ids},
+prop("C16", ["toposort", "rq_tables", "ids_names", "lower_cols", "rq_shape", "lineage_except"], select={"ids_names": _c16_ids},
      not_covered="visibility of ids across joins / sub-pipelines (redirect_mappings over node_mapping: HashMap<usize, LoweredTarget>), lower_expr, "
                  "how push_select collects its columns, create_a_table_instance; toposort()'s Key->index map and driver loop")
 claim("C16",
@@ -229,7 +229,7 @@ def _safety(name):
 
 
 _ALL_UNITS = ["take_range", "sort_take", "split_order", "window_frame", "dialect_select", "ident_quote", "ids_names", "toposort", "rq_tables",
-              "select_shape", "span_units", "sql_prec", "prql_prec", "literals", "set_ops", "desugar", "resolve_guards", "lex_strings", "limit_clause", "static_eval", "operator_tpl", "rel_names", "lower_cols", "vec_utils", "group_take", "flatten_sort", "star_exclude", "std_arity", "limit_select", "rq_shape", "star_cols", "func_env", "json_lits", "cte_define", "type_meet", "fmt_strings", "concat_ops", "sstring_query", "sstring_cols", "lineage_except", "sort_infer"]
+              "select_shape", "span_units", "sql_prec", "prql_prec", "literals", "set_ops", "desugar", "resolve_guards", "lex_strings", "limit_clause", "static_eval", "operator_tpl", "rel_names", "lower_cols", "vec_utils", "group_take", "flatten_sort", "star_exclude", "std_arity", "limit_select", "rq_shape", "star_cols", "func_env", "json_lits", "cte_define", "type_meet", "fmt_strings", "concat_ops", "sstring_query", "sstring_cols", "lineage_except", "sort_infer", "setop_pairs"]
 prop("C12", _ALL_UNITS, select={u: _safety for u in _ALL_UNITS},
      not_covered="every function that is not under contract (~150 unwrap/expect sites, panic!(cannot find cid) in lookup_cid), "
                  "recursion depth, chumsky, time bounds")
